@@ -1041,3 +1041,9 @@ package protocol
 //@ ensures err == nil && len(result.SrcIP) == len(i.SrcIP) && len(result.Data) == len(i.Data)
 //@ ensures forall j in 0..len(i.SrcIP): str(result.SrcIP)[j] == str(i.SrcIP)[j]
 //@ ensures forall j in 0..len(i.Data): str(result.Data)[j] == str(i.Data)[j]
+
+// ---- frame contract used by the flooder (C13, C06): encoding an advertisement changes no existing state ----
+
+//@ func (*RouteAdvertise).Encode
+//@ prop C13 C06
+//@ note no modifies clause: the frame obligations prove that the encoder writes only into the buffer it allocates
